@@ -85,38 +85,99 @@ theorem stateAt_time_independent (r : Reader) (b : Nat) (baseAt₁ baseAt₂ : N
           cases h₁; cases h₂
           exact ⟨rfl, rfl, rfl, rfl, rfl⟩
 
-/-! ### ill-formed wire updates -/
+/-! ### wire updates that pass `Validate` -/
+
+theorem validateTxsLength_spec {u : RawUpdate} (h : validateTxsLength u = true) :
+    u.txs.length = u.receipts.length ∧ u.txs.length = u.diffs.length ∧
+    ∀ i, i < u.txs.length → (u.receipts[i]?.join).isSome = true ∧ (u.diffs[i]?.join).isSome = true := by
+  unfold validateTxsLength at h
+  split at h
+  · cases h
+  · rename_i hl
+    simp only [Bool.or_eq_true, bne_iff_ne, ne_eq, not_or, Decidable.not_not] at hl
+    refine ⟨hl.1, hl.2, ?_⟩
+    intro i hi
+    have := (List.all_eq_true.mp h) i (List.mem_range.mpr hi)
+    simp only [Bool.and_eq_true] at this
+    exact ⟨this.1.2, this.2⟩
+
+/-- the adapter loop never panics once every index below `txs.length` has a receipt and a diff -/
+theorem zipRaw_go_no_panic (u : RawUpdate)
+    (hall : ∀ i, i < u.txs.length → (u.receipts[i]?.join).isSome = true ∧ (u.diffs[i]?.join).isSome = true) :
+    ∀ (rest : List (Option (Tx × Bool))) (i : Nat) (acc : List WireTx), i + rest.length = u.txs.length →
+      (∃ ws, zipRaw.go u rest i acc = .ok ws) ∨ zipRaw.go u rest i acc = .adaptError := by
+  intro rest
+  induction rest with
+  | nil => intro i acc _; exact Or.inl ⟨acc.reverse, rfl⟩
+  | cons t rest ih =>
+    intro i acc hi
+    cases t with
+    | none => exact Or.inr rfl
+    | some tb =>
+      obtain ⟨tx, bad⟩ := tb
+      simp only [zipRaw.go]
+      cases bad with
+      | true => exact Or.inr rfl
+      | false =>
+        simp only [Bool.false_eq_true, ↓reduceIte]
+        have hlt : i < u.txs.length := by simp only [List.length_cons] at hi; omega
+        obtain ⟨hr, hd⟩ := hall i hlt
+        cases hdi : u.diffs[i]? with
+        | none => simp [hdi] at hd
+        | some od =>
+          cases od with
+          | none => simp [hdi] at hd
+          | some d =>
+            cases hri : u.receipts[i]? with
+            | none => simp [hri] at hr
+            | some orc =>
+              cases orc with
+              | none => simp [hri] at hr
+              | some rc =>
+                simp only
+                exact ih (i + 1) _ (by simp only [List.length_cons] at hi; omega)
+
+theorem zipRaw_no_panic {u : RawUpdate} (h : validateTxsLength u = true) :
+    (∃ ws, zipRaw u = .ok ws) ∨ zipRaw u = .adaptError := by
+  obtain ⟨_, _, hall⟩ := validateTxsLength_spec h
+  exact zipRaw_go_no_panic u hall u.txs 0 [] (by simp)
+
+/-- **every update that passes `Validate` is adapted without a panic** -/
+theorem validated_adapt_no_panic (e : RawEnvelope) (h : e.validate = true) :
+    (∃ ws, e.adapt = .ok ws) ∨ e.adapt = .adaptError := by
+  cases e with
+  | noChange => exact Or.inl ⟨[], rfl⟩
+  | delta ident u =>
+    simp only [RawEnvelope.validate] at h
+    split at h
+    · cases h
+    · split at h
+      · cases h
+      · exact zipRaw_no_panic h
+  | block m u =>
+    have hl1 : m.hasL1Gas = true := by
+      cases hh : m.hasL1Gas with
+      | true => rfl
+      | false => simp [RawEnvelope.validate, hh] at h
+    have hv : validateTxsLength u = true := by
+      cases hh : validateTxsLength u with
+      | true => rfl
+      | false => simp [RawEnvelope.validate, hh] at h
+    simp only [RawEnvelope.adapt]
+    rcases zipRaw_no_panic hv with ⟨ws, hw⟩ | hw
+    · rw [hw]; simp only [hl1, ↓reduceIte]; exact Or.inl ⟨ws, rfl⟩
+    · rw [hw]; exact Or.inr rfl
 
 /-- the well-shaped raw update of a list of wire transactions -/
 def RawUpdate.ofWire (ws : List WireTx) : RawUpdate :=
-  { txs := ws.map fun w => (w.tx, w.bad), receipts := ws.map fun w => some w.rcpt,
+  { txs := ws.map fun w => some (w.tx, w.bad), receipts := ws.map fun w => some w.rcpt,
     diffs := ws.map fun w => some w.diff }
 
-theorem zipRaw_go_wellshaped (pre ws acc : List WireTx) (hgood : ∀ w ∈ ws, w.bad = false) :
-    zipRaw.go (RawUpdate.ofWire (pre ++ ws)) (ws.map fun w => (w.tx, w.bad)) pre.length acc =
-      .ok (acc.reverse ++ ws) := by
-  induction ws generalizing pre acc with
-  | nil => simp [zipRaw.go]
-  | cons w rest ih =>
-    have hw := hgood w (by simp)
-    have hd : (RawUpdate.ofWire (pre ++ w :: rest)).diffs[pre.length]? = some (some w.diff) := by
-      simp [RawUpdate.ofWire]
-    have hr : (RawUpdate.ofWire (pre ++ w :: rest)).receipts[pre.length]? = some (some w.rcpt) := by
-      simp [RawUpdate.ofWire]
-    simp only [List.map_cons, zipRaw.go, hw, Bool.false_eq_true, ↓reduceIte, hd, hr]
-    have := ih (pre ++ [w]) ({ tx := w.tx, bad := false, rcpt := w.rcpt, diff := w.diff } :: acc)
-      (fun x hx => hgood x (by simp [hx]))
-    simp only [List.append_assoc, List.singleton_append, List.length_append, List.length_cons,
-      List.length_nil, Nat.zero_add, List.reverse_cons] at this
-    rw [this]
-    cases w
-    simp_all
-
-/-- a well-shaped update of adaptable transactions never panics and yields its transactions -/
-theorem zipRaw_wellshaped (ws : List WireTx) (hgood : ∀ w ∈ ws, w.bad = false) :
-    zipRaw (RawUpdate.ofWire ws) = .ok ws := by
-  have := zipRaw_go_wellshaped [] ws [] hgood
-  simpa [zipRaw, RawUpdate.ofWire] using this
+theorem ofWire_valid (ws : List WireTx) : validateTxsLength (RawUpdate.ofWire ws) = true := by
+  simp only [validateTxsLength, RawUpdate.ofWire, List.length_map, bne_self_eq_false, Bool.or_self,
+    Bool.false_eq_true, ↓reduceIte, List.all_eq_true, List.mem_range]
+  intro i hi
+  simp [List.getElem?_map, List.getElem?_eq_getElem hi]
 
 /-! ### sequencer mode -/
 
